@@ -122,7 +122,7 @@ pub fn subs() -> Vec<Sub> {
 pub fn run(env: &mut Env) -> RunResult {
     env.run_inputs(SUB_B3, &crate::checks::c04::vectors(crate::model::Fam::V3))?;
     env.run_inputs(SUB_B5, &crate::checks::c04::vectors(crate::model::Fam::V5))?;
-    let n = env.tier.sel(6_000, 100_000);
+    let n = env.tier.sel(25_000, 400_000);
     env.run_tapes(SUB_V3, n, 200)?;
     env.run_tapes(SUB_V5, n * 3, 300)?;
     for l in V3::FIELD_LABELS {
